@@ -42,8 +42,8 @@ ASSUMPTIONS = [
     "head()/tail() without n use the public setting dataiter.DEFAULT_PEEK_ITEMS",
 ]
 BOUND = {
-    "quick": "all lists of length 0..3 over 15 items x all operations/arguments incl. the slice grid start,stop in {None,-n-1..n+1} x step in {None,1,2,-1}; chains to depth 2 from 6 start lists over a 69-operation alphabet",
-    "thorough": "all lists of length 0..4 over 15 items x all operations/arguments incl. the full slice grid; chains to depth 3 from 6 start lists over a 69-operation alphabet",
+    "quick": "all lists of length 0..3 over 15 items x all operations/arguments incl. the slice grid start,stop in {None,-n-1..n+1} x step in {None,1,2,-1}; chains to depth 2 from 6 start lists over a 69-operation alphabet, X-Y-X chains of depth 3, and the same start lists with a history (grouped, grouped and aggregated, product of filter / deepcopy)",
+    "thorough": "all lists of length 0..4 over 15 items x all operations/arguments incl. the full slice grid; chains to depth 3 from 6 start lists over a 69-operation alphabet, plus the X-Y-X chains and start-list histories of the quick tier",
 }
 TIME_CAP = {"quick": 240, "thorough": 2400}
 
@@ -546,6 +546,21 @@ def run_case(case, rec, confirm=True, outcomes=None):
         chain = case["chain"]
         check_from = case.get("check_from", 0)
         d = build(items, alias)
+        via = case.get("start_via")
+        if via:
+            # provenance: the list the chain starts from has a HISTORY that leaves its items as they are - it was grouped
+            # (group_by marks and returns the list itself), grouped and aggregated, or is the product of a filter / a copy
+            if via == "grouped":
+                d = d.group_by("a") if all("a" in x for x in d) else d
+            elif via == "aggregated":
+                if all("a" in x for x in d):
+                    d.group_by("a").aggregate(n=len)
+            elif via == "filtered":
+                d = d.filter(lambda x: True)
+            elif via == "deepcopied":
+                d = d.deepcopy()
+            else:
+                raise ValueError(via)
         for k, op in enumerate(chain):
             if k < check_from:
                 # already compared with the reference when it was the last step of a shorter chain
@@ -553,6 +568,8 @@ def run_case(case, rec, confirm=True, outcomes=None):
                 d = apply(d, cop, build_args(cop, d, list(d), R.model_of(list(d))))
                 continue
             fallback = {"items": items, "chain": chain[:k + 1]}
+            if via:
+                fallback["start_via"] = via
             if alias:
                 fallback["alias"] = alias
             s = step(d, op, rec, confirm=confirm, fallback=fallback, outcomes=outcomes)
@@ -632,7 +649,9 @@ def run_chains(shard, rec):
     seen = set()
     frontier = []
     hist = [ops[shard["first"]]]
+    hist0 = ops[shard["first"]]
     key = run_case({"items": start, "chain": hist, "check_from": 0}, rec, outcomes=outcomes)
+    key0_ok = key is not None
     if key is not None:
         seen.add(key)
         frontier.append(hist)
@@ -652,6 +671,17 @@ def run_chains(shard, rec):
                 nxt.append(chain)
         frontier = nxt
     rec.count("chain_frontier_final", len(frontier))
+    # X -> Y -> X: the first operation once more after every second operation (whatever a call remembers about its
+    # receiver or hands on to its result must not survive the operation in between); merged states included, since
+    # what is remembered is not part of the visible state
+    for op in (ops if key0_ok else []):
+        run_case({"items": start, "chain": [hist0, op, hist0], "check_from": 1}, rec, outcomes=outcomes)
+    # the start list with a history (see run_case): every operation once, and every pair ending in unique / sort / filter
+    for via in ("grouped", "aggregated", "filtered", "deepcopied"):
+        run_case({"items": start, "chain": [hist0], "check_from": 0, "start_via": via}, rec, outcomes=outcomes)
+        for op in ops:
+            if op["op"] in ("unique", "sort", "filter", "select", "head"):
+                run_case({"items": start, "chain": [hist0, op], "check_from": 0, "start_via": via}, rec, outcomes=outcomes)
 
 
 def classify(v):
